@@ -20,6 +20,9 @@ def actStr : Act → String
   | .lookup sid => "L" ++ toString sid
   | .cancel id => "C" ++ toString id
   | .cancelSelf => "S"
+  | .servers n => "V" ++ toString n
+  | .running id => "R" ++ toString id
+  | .runningSelf => "Q"
 
 /-- the callback line followed by one line per API call of its script -/
 def eventStrs (e : Event) : List String :=
@@ -30,6 +33,9 @@ def eventStrs (e : Event) : List String :=
 
 def parseAct (w : String) : Option Act :=
   if w == "S" then some .cancelSelf
+  else if w == "Q" then some .runningSelf
+  else if w.startsWith "V" then (small? ((w.drop 1).toString) 4).map .servers
+  else if w.startsWith "R" then (small? ((w.drop 1).toString) 65536).map .running
   else if w.startsWith "L" then (small? ((w.drop 1).toString) 64).map .lookup
   else if w.startsWith "C" then (small? ((w.drop 1).toString) 65536).map .cancel
   else none
@@ -49,6 +55,7 @@ def parseOp (ws : List String) : Option Op :=
   | ["cancel", i] => do pure (.cancel (← small? i 65536))
   | ["running", i] => do pure (.running (← small? i 65536))
   | ["recv", h] => do pure (.recv (← bytesOfHex h))
+  | ["net", h] => do pure (.net (← bytesOfHex h))
   | ["tick"] => some .tick
   | _ => none
 
@@ -82,6 +89,7 @@ def opTags (st : St) : Op → String
   | .cancel id => if (find st.reqs id).isSome then "cancel-hit" else "cancel-miss"
   | .running _ => "running"
   | .recv d => recvTags st d
+  | .net d => "net " ++ (if d.length > 4096 then "net-truncated " else "") ++ recvTags st (d.take 4096)
   | .tick => if st.valueNumber = 0 then "tick-idle" else if st.r1.isEmpty then "tick-empty"
              else if st.r1.any (fun t => match find st.reqs t.1 with | some r => r.serial != t.2 | none => false) then "tick-expire tick-stale-token"
              else "tick-expire"
@@ -90,6 +98,9 @@ def actTag (st : Status) : Act × Nat → String
   | (.lookup _, ret) => "act-lookup-in-" ++ statusStr st ++ (if ret = 0 then " act-lookup-refused" else "")
   | (.cancel _, ret) => if ret = 1 then "act-cancel-hit" else "act-cancel-miss"
   | (.cancelSelf, _) => "act-cancel-self"
+  | (.servers n, _) => "act-servers" ++ toString n
+  | (.running _, ret) => if ret = 1 then "act-running-yes" else "act-running-no"
+  | (.runningSelf, _) => "act-running-self"
 
 def eventTags (es : List Event) : String :=
   " ".intercalate (es.map fun e => " ".intercalate (("cb-" ++ statusStr e.result.status) :: e.acts.map (actTag e.result.status)))
@@ -128,7 +139,7 @@ def stepLine (s : DSt) (line : String) : DSt × List String :=
       | none => (s, ["bad-op"])
   | ["burst", w] =>
       match w.toNat? with
-      | some n => if 1 ≤ n ∧ n ≤ 5000 then
+      | some n => if 1 ≤ n ∧ n ≤ 70000 then
                     let (st', last) := burstLoop n s.st 0
                     ({ s with st := st' }, ["B burst", "P ret=" ++ toString last])
                   else (s, ["bad-op"])
